@@ -133,6 +133,13 @@ func H_C18_Process() {
 	verifAssume(etype != "")
 	created := time.Unix(0, int64(nondetInt()))
 	e := &eventlogger.Event{Type: etype, CreatedAt: created, Formatted: map[string][]byte{}}
+	// another formatter (another pipeline, another configuration) may have stored a document under the same format key
+	// already: this node stores its own all the same
+	stale := nondetBool()
+	if stale {
+		e.Formatted[string(FormatJSON)] = []byte("someone else's json")
+		e.Formatted[string(FormatText)] = []byte("someone else's text")
+	}
 	data := &cPlain{}
 	pid := ""
 	hasID := false
@@ -174,14 +181,14 @@ func H_C18_Process() {
 	validCfg := srcKind == 2 && schemaKind != 1
 	if !validCfg || !validFormat {
 		verifAssert(err != nil && out == nil, "C18.invalid-config-rejected")
-		verifAssert(len(e.Formatted) == 0, "C18.invalid-config-stores-nothing")
+		verifAssert(len(e.Formatted) == 0 || stale, "C18.invalid-config-stores-nothing")
 		verifAssert(len(signCalls) == 0, "C18.invalid-config-no-signing")
 		verifReach("C18.invalid")
 		return
 	}
 	if hasID && pid == "" {
 		verifAssert(err != nil && out == nil, "C18.empty-id-rejected")
-		verifAssert(len(e.Formatted) == 0, "C18.empty-id-stores-nothing")
+		verifAssert(len(e.Formatted) == 0 || stale, "C18.empty-id-stores-nothing")
 		verifReach("C18.emptyid")
 		return
 	}
@@ -221,7 +228,7 @@ func H_C18_Process() {
 	}
 	got, ok := e.Format(key)
 	verifAssert(ok, "C18.stored-under-configured-format")
-	verifAssert(len(e.Formatted) == 1, "C18.only-one-format-stored")
+	verifAssert(len(e.Formatted) == 1 || stale, "C18.only-one-format-stored")
 	if !ok {
 		return
 	}
